@@ -199,6 +199,12 @@ def comp_filter(n, b):
     return xs
 
 
+def rows_of_empty(n):
+    t = [[] for i in range(n + 1)]
+    t[0].insert(0, 5)
+    return (len(t), len(t[0]), len(t[n]))
+
+
 C = 'conformance/cases.py'
 def fill_table(n, s):
     t = [s]
@@ -240,6 +246,9 @@ def picks(n):
 
 
 CONTRACTS = {
+    # [[] for i in range(..)]: that many DISTINCT empty lists (appending to one leaves the others empty)
+    (C, 'rows_of_empty'): {'params': {'n': 'int'}, 'requires': ['n >= 1'], 'raises': {}, 'returns': 'tuple:int,int,int',
+                           'ensures': ['result[0] == n + 1', 'result[1] == 1', 'result[2] == 0']},
     # a comprehension over a range with an upper-bound filter is the comprehension over the shorter range
     (C, 'comp_filter'): {'params': {'n': 'int', 'b': 'int'}, 'raises': {}, 'returns': 'intlist',
                          'ensures': ['len(result) == max(0, min(n, b))',
